@@ -39,6 +39,10 @@ CHECKS = {
         text="Url.tla transcribes the rule-side and the request-side normalisation token by token (sanitise, form-decode, BTreeMap sort with last-value-wins, the two re-encoding passes, marketing skip, lower-casing) and defines Canonical(u, cfg) = sanitised path + decoded parameter map. TLC checks, for every configuration and every rule URL of the universe against EVERY request URL, that the code-shaped match equals the canonical-form match outside two named deviation classes, and exactly when marketing parameters are ignored and matching is case sensitive. The harness builds the real rule + router per (configuration, rule URL), matches a request for every URL of the universe, records the normalised strings, the Location header (forwarding of skipped marketing parameters) and rebuild idempotence; TLC judges every pair (zero drift: the model predicts every normalised string).",
         note="Universe: 104 URLs (quick) / ~700 (thorough) x 8 configurations, i.e. every pair is probed, so self-match, discrimination, permutation, marketing, case and re-encoding invariance are all covered as instances. Two genuine defects are known findings (request side not normalised when marketing-ignore is off; sort-before-case-fold), the second one found by TLC in the model.",
         ref="DESIGN.md section 6, C09"),
+    "C10": dict(
+        text="Marker.tla: templates as token sequences (literals / references; names a, ab, abc prefixes of one another; markers in path, host and a header pattern at once), typed expressions (integer, lowercase, enum, date, uuid, anything) with accepted values and near misses, AllAccepted, Substitute with transformer chains whose meaning is MarkerTables.tla (generated by an independent implementation). TLC enumerates rules x instantiations x chains; the harness runs each through the real Router and Action (request header name in the rule's spelling and lower-cased) and TLC judges match <=> all accepted and Location / header-filter value / body-filter output = Substitute(...).",
+        note="5 000 + 484 + 22 cases. Domain restrictions stated in the evidence assumptions (one marker per pattern position, targets reference only captured markers, case conversions on word-structured values). Two genuine defects repaired (header name case in capture; slice panics).",
+        ref="DESIGN.md section 6, C10"),
     "C11": dict(
         text="TLC enumerates rule sets of <=3 (thorough: 4) rules with every rank-tie pattern and conflicting effects; the specification's order is (rank desc, id desc). For each set the harness folds every permutation of the real match vector and matches on routers built in every insertion order; TLC checks that all serialised actions are identical and that the recorded filter order equals the specification's.",
         note="Sampling disabled as the property states. Bounded to <=4 matched rules; serialisations compared by hash.",
